@@ -278,6 +278,7 @@ func genC06(r *rand.Rand, tier string, idx int) *World {
 		}
 		ps.StartAgoSec = pick(r, slow-3, slow-1, slow, slow+1, slow+3, 2*slow)
 		ps.AgeSec = ps.StartAgoSec + 10
+		ps.Ephemeral = chance(r, 0.15)
 		cs.Pods = append(cs.Pods, c06Pod{State: ps})
 	}
 	// "0s": fail as soon as two distinct restarts have been observed
@@ -873,7 +874,7 @@ func genC01Inject(r *rand.Rand, tier string, idx int) *World {
 			if e.OldDS != "" && chance(r, 0.3) {
 				p.ERS = "legacy"
 			}
-			p.State = PodState{Kind: pick(r, "ready", "ready", "ready", "unready", "pending", "failed", "unknown", "creating"), AgeSec: pick(r, 30, 30, 60, 120, 700)}
+			p.State = PodState{Kind: pick(r, "ready", "ready", "ready", "unready", "pending", "failed", "unknown", "creating", "succeeded"), AgeSec: pick(r, 30, 30, 60, 120, 700)}
 			p.State.Term = chance(r, 0.15)
 			p.State.Unsched = chance(r, 0.2)
 			p.State.Suffix = fmt.Sprintf("-%d", j)
